@@ -311,7 +311,7 @@ func genCase(t *rapid.T) Case {
 	c.Node.SaveStorageBatch = rapid.IntRange(0, 7).Draw(t, "ssb") == 0
 	c.Node.NoVerifyTx = rapid.IntRange(0, 7).Draw(t, "noverify") == 0
 
-	bias := ck.GenBias{Storage: 8, Faults: 2, Value: 1, Governance: 1, Attrs: 5, P2PSig: c.Chain.P2PSig}
+	bias := ck.GenBias{Storage: 8, Faults: 2, Value: 1, Governance: 1, Attrs: 5, P2PSig: c.Chain.P2PSig, Oracle: 2, Notary: 1}
 	n := rapid.IntRange(3, 30).Draw(t, "nblocks")
 	for i := 0; i < n; i++ {
 		c.Blocks = append(c.Blocks, ck.GenBlock(t, bias, 3))
@@ -985,6 +985,9 @@ func checkCase(c Case, o *vt.Obs) error {
 	}
 	if e.nonRetained {
 		o.Label("gc-nonretained-height-probed")
+	}
+	for _, l := range b.FlowLabels() {
+		o.Label(l)
 	}
 	for k, v := range b.Rejected {
 		if v > 0 {
